@@ -2,9 +2,11 @@
 package main
 
 import (
+	"bufio"
 	"bytes"
 	"fmt"
 	"io"
+	"strings"
 
 	"github.com/gobwas/ws"
 	"github.com/gobwas/ws/wsutil"
@@ -77,6 +79,41 @@ func runReadHeader(data []byte, chunk int) decRes {
 	return decRes{h, err, s.Off, s.MaxEnd, s.Reads}
 }
 
+// The low-level decoder takes any io.Reader and may look at what the reader can do beyond
+// Read (buffered readers, in-memory readers): the same bytes are presented through the
+// standard library's reader types as well, buffered ones primed so that bytes are already
+// waiting in the buffer.
+var readerKinds = []string{"bufio-primed", "bufio-primed-16", "bytes.Reader", "bytes.Buffer", "strings.Reader"}
+
+func runReadHeaderKind(kind string, data []byte) decRes {
+	switch kind {
+	case "bufio-primed", "bufio-primed-16":
+		s := env.NewSrc(data)
+		size := 32
+		if kind == "bufio-primed-16" {
+			size = 16
+		}
+		br := bufio.NewReaderSize(s, size)
+		br.Peek(1)
+		h, err := ws.ReadHeader(br)
+		rest, _ := io.ReadAll(br)
+		return decRes{h: h, err: err, used: len(data) - len(rest)}
+	case "bytes.Reader":
+		r := bytes.NewReader(data)
+		h, err := ws.ReadHeader(r)
+		return decRes{h: h, err: err, used: len(data) - r.Len()}
+	case "bytes.Buffer":
+		r := bytes.NewBuffer(append([]byte{}, data...))
+		h, err := ws.ReadHeader(r)
+		return decRes{h: h, err: err, used: len(data) - r.Len()}
+	case "strings.Reader":
+		r := strings.NewReader(string(data))
+		h, err := ws.ReadHeader(r)
+		return decRes{h: h, err: err, used: len(data) - r.Len()}
+	}
+	panic(kind)
+}
+
 func runNextFrame(data []byte, chunk int) decRes {
 	s := env.NewSrc(data)
 	s.Policy = env.FixedChunk(chunk)
@@ -115,6 +152,12 @@ func main() {
 									return explore.Failf("HeaderSize", "got %d want %d", n, len(want))
 								}
 								data := append(append([]byte{}, want...), sentinel...)
+								for _, kind := range readerKinds {
+									k := runReadHeaderKind(kind, data)
+									if k.err != nil || !sameHdr(k.h, h) || k.used != len(want) {
+										return explore.Failf("ReadHeader-"+kind, "err=%v got %+v consumed %d want %d", k.err, k.h, k.used, len(want))
+									}
+								}
 								for _, chunk := range []int{0, 1} {
 									for di, dec := range []func([]byte, int) decRes{runReadHeader, runNextFrame} {
 										name := [2]string{"ReadHeader", "NextFrame"}[di]
@@ -156,6 +199,10 @@ func main() {
 				{0x7f, 0xff, 0xff, 0xff, 0xff, 0xff, 0xff, 0xff, 1, 2, 3, 4},  // 2^63-1
 				{0x80, 0, 0, 0, 0, 0, 0, 1, 1, 2, 3, 4},                       // MSB set
 			}
+			kinds := readerKinds[:2]
+			if t.Thorough() {
+				kinds = readerKinds
+			}
 			t.Par(65536, func(i int) {
 				b0, b1 := byte(i>>8), byte(i)
 				for ti, tail := range tails {
@@ -168,6 +215,12 @@ func main() {
 							b := runNextFrame(data, 0)
 							if (a.err == nil) != (b.err == nil) {
 								return explore.Failf("decoders-disagree-verdict", "ReadHeader err=%v NextFrame err=%v", a.err, b.err)
+							}
+							for _, kind := range kinds {
+								k := runReadHeaderKind(kind, data)
+								if (k.err == nil) != (a.err == nil) || (a.err == nil && (k.h != a.h || k.used != a.used)) {
+									return explore.Failf("ReadHeader-depends-on-reader-type:"+kind, "plain reader: %+v/%d err=%v; %s: %+v/%d err=%v", a.h, a.used, a.err, kind, k.h, k.used, k.err)
+								}
 							}
 							if a.err == nil && (a.h != b.h || a.used != b.used) {
 								return explore.Failf("decoders-disagree-fields", "ReadHeader %+v/%d NextFrame %+v/%d", a.h, a.used, b.h, b.used)
